@@ -241,6 +241,44 @@ def oracle_align_linear(ctx, n, maxlen):
 
 
 # ------------------------------------------------------------------ check
+
+def oracle_align_history(ctx, n):
+    """phase_align with a RE-USED cycles iterator: an augmented-mode alignment followed by a default-mode one must give, in the
+    second call, the same aligned values as a call with a fresh cycle vector (the alignment of a quantity linear in phase on
+    the 0..2pi grid) - the result may not depend on the history of the iterator object."""
+    from emd import cycles
+    fails = []
+    for i in range(n):
+        ncyc = ctx.rng.randint(2, 5)
+        ip, cv, xs, coef = [], [], [], []
+        for k in range(ncyc):
+            ln = ctx.rng.randint(6, 30)
+            pts = sorted(ctx.rng.sample(range(1, 401), ln))
+            a, b = ctx.rng.randint(-8, 8) / 4.0, ctx.rng.randint(-8, 8) / 2.0
+            coef.append((a, b))
+            ip += [p / 64.0 for p in pts]
+            cv += [k] * len(pts)
+            xs += [a * (p / 64.0) + b for p in pts]
+        IP, X, CV = np.array(ip), np.array(xs), np.array(cv, dtype=int)
+        npts = ctx.rng.choice([5, 24, 48])
+        inp = dict(ip=ip, cycles=cv, x=xs, npoints=npts, history=['augmented', 'cycle'])
+        try:
+            with common.time_limit(30):
+                it = cycles.IterateCycles(cycle_vect=CV, phase=IP)
+                cycles.phase_align(IP, X, cycles=it, npoints=npts, mode='augmented')
+                second, bins = cycles.phase_align(IP, X, cycles=it, npoints=npts)
+                fresh, _ = cycles.phase_align(IP, X, cycles=CV, npoints=npts)
+        except Exception as e:
+            return [('phase_align(history)', 'raised %s: %s' % (type(e).__name__, e), inp)]
+        ctx.count(('align-history', i), True, 'align-history')
+        ctx.tol_cmp += 1
+        if second.shape != fresh.shape or not np.allclose(second, fresh, rtol=1e-9, atol=1e-9):
+            err = float(np.abs(second - fresh).max()) if second.shape == fresh.shape else -1
+            return [('phase_align(history)', 'a default-mode alignment made with a cycles iterator that had been used for an augmented-mode '
+                     'alignment differs from the alignment with a fresh cycle vector by %.3g (quantities linear in phase are no longer '
+                     'reproduced on the phase grid)' % err, inp)]
+    return fails
+
 def run(ctx):
     maxlen = 6 if ctx.quick() else 8
     ctx.rule = ('(1) every label vector over {-1,0,1,2} of length <= %d whose labels are 0..max (gaps, interleaved and unordered labels '
@@ -309,6 +347,8 @@ def run(ctx):
     ctx.sample(dict(ip=ac[0][0][:12], cycles=ac[0][1][:12], x=ac[0][2][:12], npoints=ac[0][3], note='first 12 samples'))
     for site, detail, inp in oracle_align_linear(ctx, 60 if ctx.quick() else 2000, maxcyc)[:1]:
         ctx.problem('impl-violation', site, detail, input=inp)
+    for site, detail, inp in oracle_align_history(ctx, 25 if ctx.quick() else 600)[:1]:
+        ctx.problem('impl-violation', site, detail, input=inp)
     if b3 is not None and bad is None:
         bad = ('run_align', dict(ip=b3[0][0], cycles=b3[0][1], x=b3[0][2], npoints=b3[0][3], cycle=b3[1]), dict(impl=b3[2], model=b3[3]))
     if bad is not None and not any(p['kind'] == 'impl-violation' for p in ctx.problems):
@@ -319,6 +359,14 @@ def run(ctx):
 def replay(rec):
     from emd import cycles
     i = rec['input']
+    if 'history' in i:
+        IP, X, CV = np.array(i['ip']), np.array(i['x']), np.array(i['cycles'], dtype=int)
+        it = cycles.IterateCycles(cycle_vect=CV, phase=IP)
+        cycles.phase_align(IP, X, cycles=it, npoints=i['npoints'], mode='augmented')
+        second, _ = cycles.phase_align(IP, X, cycles=it, npoints=i['npoints'])
+        fresh, _ = cycles.phase_align(IP, X, cycles=CV, npoints=i['npoints'])
+        print(float(np.abs(second - fresh).max()))
+        return not np.allclose(second, fresh, rtol=1e-9, atol=1e-9)
     if 'values' in i:
         f = oracle_stats(i['cycles'], i['values'])
         print(f)
